@@ -674,6 +674,48 @@ func c13Scripted(r *Run, idx int) {
 		}
 		lc2.Close()
 	}
+	// ---- R5c: the same on a hybrid loading cache, both builder routes: what the loader returns decides cost and
+	// deadline of the admitted value, whatever copy of the key the secondary store still held (expired, or none)
+	for variant := 0; variant < 2; variant++ {
+		var loads atomic.Int64
+		ttl := []time.Duration{0, time.Hour}[(idx+variant)%2]
+		a, err := newAnyCache("hybrid-loading", anyOpts{MaxSize: 100, Prob: 1, ProbSet: true, Loader: func(ctx context.Context, k int) (theine.Loaded[int64], error) {
+			return theine.Loaded[int64]{Value: 5_000_000 + loads.Add(1), Cost: 3, TTL: ttl}, nil
+		}})
+		if err != nil {
+			r.Broken("build: %v", err)
+			return
+		}
+		st3 := a.store()
+		now := st3.VerifNowNano()
+		// an expired copy of key 9 and a live copy of key 10 are in the secondary store already
+		_ = a.sec.Set(9, 111, 1, now-int64(time.Minute))
+		_ = a.sec.Set(10, 222, 1, now+int64(time.Hour))
+		v9, ok9, _ := a.get(context.Background(), 9)
+		a.wait()
+		if !ok9 || v9 < 5_000_000 {
+			fail("expired-secondary-copy-served-instead-of-loading/"+a.route, fmt.Sprintf("hybrid loading cache (%s): key 9 had an expired copy in the secondary store; Get returned (%d,%v) instead of a freshly loaded value", a.route, v9, ok9), nil)
+		} else {
+			for _, en := range st3.VerifSnapshot().Map {
+				if en.Key != 9 {
+					continue
+				}
+				wantNone := ttl == 0
+				if (wantNone && en.Expire != 0) || (!wantNone && (en.Expire < now+int64(ttl) || en.Expire > st3.VerifNowNano()+int64(ttl))) || en.Weight != 3 {
+					fail("loaded-value-not-admitted-as-returned/"+a.route, fmt.Sprintf("hybrid loading cache (%s): the loader returned cost 3 and TTL %v for key 9 (whose copy in the secondary store had expired a minute ago); the admitted entry has cost %d and deadline %d (clock now %d)", a.route, ttl, en.Weight, en.Expire, st3.VerifNowNano()), nil)
+				}
+			}
+			l0 := loads.Load()
+			if v, ok, _ := a.get(context.Background(), 9); !ok || v != v9 || loads.Load() != l0 {
+				fail("loaded-value-not-readable/"+a.route, fmt.Sprintf("hybrid loading cache (%s): Get(9) right after its load returned (%d,%v) and ran the loader %d more times", a.route, v, ok, loads.Load()-l0), nil)
+			}
+		}
+		if v10, ok10, _ := a.get(context.Background(), 10); !ok10 || v10 != 222 {
+			fail("live-secondary-copy-not-served/"+a.route, fmt.Sprintf("hybrid loading cache (%s): key 10 had a live copy (222) in the secondary store; Get returned (%d,%v)", a.route, v10, ok10), nil)
+		}
+		r.Count("scripted_hybrid_loads_checked", 1)
+		a.store().Close()
+	}
 	// ---- R6: leader of a failing load parked before singleflight clean-up
 	for _, outcome := range []string{"error", "panic", "goexit"} {
 		var nth atomic.Int64
